@@ -40,6 +40,10 @@ families
 oracles (name@family)
   C04t_yields       the entry point returns; a JaqalError is legitimate only if the program with the calls written out
                     by hand (reference expansion) is rejected by the same front end too
+  C04t_float_index  (numform; a reading of the same: counted apart so that it can be dropped) the call is rejected only
+                    because an INTEGRAL FLOAT argument ends up as a qubit index (`at 2.0` with `macro at i { X q[i] }`):
+                    written out literally `X q[2.0]` is no Jaqal, written out by value it is `X q[2]`; the pass documents
+                    (filter_float) that it takes the second reading
   C04t_no_calls     no statement anywhere in the result's body calls a macro
   C04t_meaning      meaning of the result == reference meaning of the original (numbers by value, same-kind blocks spliced;
                     EMPTY non-subcircuit blocks are ignored on both sides - they hold no gate application - but loops
@@ -301,6 +305,23 @@ def strictly_typed(stmts, lets):
         return count_ok(s[3]) and all(ok(x) for x in s[4])
 
     return all(ok(s) for s in stmts)
+
+
+def int_indices(s):
+    """the statement with integral float literals at index positions written as integers"""
+    def t_(t):
+        if t[0] == "idx":
+            i = t[2]
+            if i[0] == "lit" and isinstance(i[1], float) and (len(i) < 3 or i[2] in (None, "float64")) and i[1] == int(i[1]):
+                i = ["lit", int(i[1])]
+            return ["idx", t_(t[1]), i]
+        return t
+
+    if s[0] == "g":
+        return ["g", s[1], [t_(a) for a in s[2]]]
+    if s[0] == "loop":
+        return ["loop", s[1], int_indices(s[2])]
+    return ["blk", s[1], s[2], s[3], [int_indices(x) for x in s[4]]]
 
 
 def count_subcircuits(m, mult=1):
@@ -883,12 +904,18 @@ def check_result(ck, fam, label, out, expect, base, case, step_no, names, hand_r
     where = f"step {step_no}, {label}: "
     ck.dist[f"{fam} entry: {label}"] += 1
     if out[0] == "err":
-        if out[1] == "JaqalError" and hand_rejected():
+        legit = hand_rejected() if out[1] == "JaqalError" else False
+        if legit is True:
             ck.dist[f"{fam}: rejected like the hand-substituted program"] += 1
+            return None
+        if legit == "float index":
+            ck.rec(f"C04t_float_index@{fam}", False, case, where + f"an integral float that ends up as a qubit index is refused: {out[2]}")
             return None
         ck.rec(f"C04t_yields@{fam}", False, case, where + f"{out[1]}: {out[2]}")
         return None
     ck.rec(f"C04t_yields@{fam}", True, case)
+    if fam == "numform":
+        ck.rec(f"C04t_float_index@{fam}", True, case)
     c = out[1]
     left = E.calls_left(c, names)
     ck.rec(f"C04t_no_calls@{fam}", not left, case, where + f"macro calls left in the body: {left[:4]}")
@@ -936,7 +963,9 @@ def check_step(ck, case, i, state):
     hand_memo = {}
 
     def hand_rejected():
-        """is the program with the calls written out by hand rejected by the same front end?"""
+        """is the program with the calls written out by hand rejected by the same front end?  -> True (legitimate
+        rejection) | False | "float index" (rejected as written, accepted once every INTEGRAL FLOAT that stands at an
+        index position after substitution is written as the integer it represents - what the pass's filter_float does)"""
         if "v" not in hand_memo:
             try:
                 fl = E.splice(E.reference(p), False)
@@ -949,6 +978,12 @@ def check_step(ck, case, i, state):
                 return True
             o = G_(front_end(step, p, with_macros=False, body=fl))
             hand_memo["v"] = o[0] == "err" and o[1] == "JaqalError"
+            if hand_memo["v"]:
+                fl2 = [int_indices(x) for x in fl]
+                if fl2 != fl:
+                    o = G_(front_end(step, p, with_macros=False, body=fl2))
+                    if o[0] == "ok":
+                        hand_memo["v"] = "float index"
         return hand_memo["v"]
 
     if made[0] == "err":
